@@ -9,7 +9,7 @@ import numpy as np
 from hypothesis import strategies as st
 from hypothesis.stateful import initialize, rule
 
-from .. import gen, sitesys
+from .. import gen, oracle, sitesys
 from ..runner import Raised, Skip, Sub, Violation, gcall, log_machine_base, quiet, replay_log
 
 PROPERTY = 'C20'
@@ -352,6 +352,10 @@ class RealMachine(LogMachine):
             if isinstance(j, Raised):
                 raise Skip()
             return j
+        if kind == 'Jumps' and (k // len(self.systems)) % 2 == 1:
+            # the same system with its sites listed in reverse order (an equal *set* of sites, another object with another site numbering)
+            case = dict(case, sites={'frac': case['sites']['frac'][::-1], 'labels': case['sites']['labels'][::-1],
+                                     'image_shift': (case['sites'].get('image_shift') or [[0, 0, 0]] * len(case['sites']['frac']))[::-1]})
         traj = sitesys.full_trajectory(case)
         if kind == 'Trajectory':
             return traj
@@ -426,6 +430,15 @@ class RealMachine(LogMachine):
             if not deep_equal(got, tv, rtol=1e-7, arel=1e-9):
                 raise Violation('value-belongs-to-this-object', f'{kind}.{name}{args} differs from the value a pristine twin gives (the same object derived again from the raw data, sharing nothing with the objects of this history; system {k}, {len(self.live)} live objects)')
             del twin, tv
+        if name == 'jump_diffusivity' and not isinstance(got, Raised):
+            # independent of every cache in the library: the defining formula on this object's own table and sites
+            Mx = np.array(o.trajectory.get_lattice().matrix, float)
+            sfx = np.array(o.sites.frac_coords, float)
+            Dx = oracle.min_image_dist(sfx, sfx, Mx)
+            rows = list(zip(o.data['start site'], o.data['destination site']))
+            wantd = sum(float(Dx[int(i_), int(j_)]) ** 2 for i_, j_ in rows) * oracle.ANGSTROM**2 / (2 * a[0] * len(o.trajectory.species) * len(o.trajectory) * o.trajectory.time_step)
+            if abs(float(got) - wantd) > 1e-9 * max(abs(wantd), 1e-300):
+                raise Violation('value-belongs-to-this-object', f'{kind}.jump_diffusivity{args} = {float(got)!r}, the defining formula on this object\'s own jumps and sites gives {wantd!r} (system {k}, {len(self.live)} live objects)')
         if getattr(getattr(type(o), name), '__wrapped__', None) is None:
             if not deep_equal(got, got2):
                 raise Violation('repeated-call-same-value', f'{kind}.{name}{args}: two consecutive calls differ')
@@ -468,7 +481,8 @@ class RealMachine(LogMachine):
             h1 = self._new(op['k'], op['kind'])
             # (family kinds: the same system, another slice of the same shared parent trajectory)
             # (JumpsShared: another minimal residence (k + 1) or the same residence with another conversion method (k + 3))
-            h2 = self._new(op['k'] + (len(self.systems) if op['kind'].endswith('Family') else (3 if op['kind'] == 'JumpsShared' and op['a'] % 2 else 1)), op['kind'])
+            # (Jumps: another system (k + 1) or the same system with its sites listed in reverse order (k + number of systems))
+            h2 = self._new(op['k'] + (len(self.systems) if op['kind'].endswith('Family') or (op['kind'] == 'Jumps' and op['a'] % 2) else (3 if op['kind'] == 'JumpsShared' and op['a'] % 2 else 1)), op['kind'])
             for h in (h1, h2, h1):
                 self._call(h, op['m'], op['a'])
         elif k == 'burst':
@@ -515,7 +529,7 @@ class RealMachine(LogMachine):
             labels.append('more-than-128-live-objects')
         return {'nontrivial': bool(self.flags['id_reuse'] or self.flags['eviction']), 'labels': labels}
 
-    @initialize(history=st.deferred(lambda: __import__('pbt.props.c19', fromlist=['x']).jump_split_cases('quick')), systems=st.lists(gen.hop_systems(min_sites=2, max_sites=4, max_diff=2, max_frames=10, radius_modes=('float',)), min_size=2, max_size=3))
+    @initialize(history=st.deferred(lambda: __import__('pbt.props.c19', fromlist=['x']).jump_split_cases('quick')), systems=st.lists(gen.hop_systems(min_sites=3, max_sites=5, max_diff=2, max_frames=10, radius_modes=('float',)), min_size=2, max_size=3))
     def r_init(self, systems, history):
         ok = []
         for c in systems:
@@ -540,7 +554,7 @@ class RealMachine(LogMachine):
     def r_drop_create(self, i, k, m, a):
         self.step({'op': 'drop-create', 'i': i, 'k': k, 'm': m, 'a': a})
 
-    @rule(k=st.integers(0, 11), kind=st.sampled_from(['JumpsShared', 'JumpsShared', 'Jumps', 'Transitions', 'JumpsFamily', 'JumpsFamily', 'MetricsFamily']), m=st.sampled_from([0, 1, 2, 3, 5, 5]), a=st.integers(0, 7))
+    @rule(k=st.integers(0, 11), kind=st.sampled_from(['JumpsShared', 'JumpsShared', 'Jumps', 'Transitions', 'JumpsFamily', 'JumpsFamily', 'MetricsFamily']), m=st.sampled_from([0, 1, 2, 3, 3, 5]), a=st.integers(0, 7))
     def r_pair(self, k, kind, m, a):
         self.step({'op': 'pair', 'k': k, 'kind': kind, 'm': m, 'a': a})
 
